@@ -1,0 +1,45 @@
+//go:build verif
+
+// Export shim for the external verification harness (/verif, property C17 part B: storage-key
+// injectivity). Compiled only with the build tag `verif`. Thin wrappers that make the unexported
+// put/get storage helpers reachable as black-box key constructors; no contract logic lives here.
+
+package heco
+
+import (
+	ecommon "github.com/ethereum/go-ethereum/common"
+	"github.com/polynetwork/poly/native"
+	scom "github.com/polynetwork/poly/native/service/header_sync/common"
+)
+
+func VerifStoreGenesis(native *native.NativeService, params *scom.SyncGenesisHeaderParam, genesisHeader *GenesisHeader) error {
+	return storeGenesis(native, params, genesisHeader)
+}
+
+func VerifGetGenesis(native *native.NativeService, chainID uint64) (*GenesisHeader, error) {
+	return getGenesis(native, chainID)
+}
+
+func VerifPutCanonicalHash(native *native.NativeService, chainID uint64, height uint64, hash ecommon.Hash) {
+	putCanonicalHash(native, chainID, height, hash)
+}
+
+func VerifGetCanonicalHash(native *native.NativeService, chainID uint64, height uint64) (ecommon.Hash, error) {
+	return getCanonicalHash(native, chainID, height)
+}
+
+func VerifPutHeaderWithSum(native *native.NativeService, chainID uint64, headerWithSum *HeaderWithDifficultySum) error {
+	return putHeaderWithSum(native, chainID, headerWithSum)
+}
+
+func VerifGetHeader(native *native.NativeService, hash ecommon.Hash, chainID uint64) (*HeaderWithDifficultySum, error) {
+	return getHeader(native, hash, chainID)
+}
+
+func VerifIsHeaderExist(native *native.NativeService, hash ecommon.Hash, ctx *Context) (bool, error) {
+	return isHeaderExist(native, hash, ctx)
+}
+
+func VerifPutCanonicalHeight(native *native.NativeService, chainID uint64, height uint64) {
+	putCanonicalHeight(native, chainID, height)
+}
